@@ -134,9 +134,9 @@ E_RULE = ("cases are stratified programs (2-5 predicates p0..p4 of arity 0-2, 1-
           "requests) and then re-asked 1-3 more times. Compared per request: the returned substitution set (with variable ids), the resolved query, "
           "the variable counter and the text written to stdout. Non-trivial = at least two clauses or at least one answer; distinct = distinct "
           "encoded program text. Programs in which an occurs-check situation arises stop at that point in both runs. "
-          "Every run also enumerates ALL 12420 programs `t($X) :- BODY.` + `t(other).` (in both clause orders) + `g(1). g(2). h(2). h(3). c($X) :- g($X), !. c(3).` whose BODY is a "
-          "conjunction/disjunction of 1-3 goals (flat, `(a;b),c`, `a,(b;c)`, `(a,b);c`, `a;(b,c)`, `(a,b),c`) over the 10-goal alphabet "
-          "{g($X), h($X), !, fail, $X = 2, print, not(h($X)), g($Y), $X < 2, c($X)}.")
+          "Every run also enumerates ALL 16478 programs `t($X) :- BODY.` + `t(other).` (in both clause orders) + `g(1). g(2). h(2). h(3). c($X) :- g($X), !. c(3). r($X) :- g($X).` whose BODY is a "
+          "conjunction/disjunction of 1-3 goals (flat, `(a;b),c`, `a,(b;c)`, `(a,b);c`, `a;(b,c)`, `(a,b),c`) over the 11-goal alphabet "
+          "{g($X), h($X), !, fail, $X = 2, print, not(h($X)), g($Y), $X < 2, c($X), r($X)} (c/1 cuts in its own clause, r/1 is a rule whose body has several answers).")
 
 
 def engine_runs(prop, n, flagsets, what=None, exhaustive=1):
@@ -162,15 +162,17 @@ ENGINE_ASSUME = ("the property oracle compares the implementation's answers / ou
 PROPS['C01'] = {
     'exhaustive_in': {'quick': True, 'thorough': True},
     'module': 'SuironVerif.Props.C01',
-    'theorems': ['Suiron.C01.sigma_const_partial', 'Suiron.C01.format_var_partial', 'Suiron.C01.format_skip_nonvar_partial', 'Suiron.C01.machine_answer_partial'],
+    'theorems': ['Suiron.C01.askN_sound', 'Suiron.C01.answers_are_derivable_partial', 'Suiron.C01.sigma_const_partial', 'Suiron.C01.format_var_partial', 'Suiron.C01.format_skip_nonvar_partial', 'Suiron.C01.machine_answer_partial'],
     'oracles': ['C01'],
     'suites': {
         'quick': engine_runs('C01', 1500, [['--pure'], ['--pure', '--print', '2'], []], what='answers'),
         'thorough': engine_runs('C01', 20000, [['--pure']] * 8 + [['--pure', '--print', '2']] * 2 + [[]] * 4, what='answers'),
     },
     'rule': E_RULE, 'design_ref': '5.1',
-    'assumptions': ["PARTIAL: the refinement theorem engine = reference machine is stated in Props/C01.lean and not yet proved; proved are the isolation "
-                    "mechanism (a node's substitution set is never modified), the answer formatting of solve/solve_all and the machine's answer rule",
+    'assumptions': ["PARTIAL: proved is SOUNDNESS (every answer returned by any request is an SLD-derivable answer in the sense of Spec/SLD.lean, for every knowledge "
+                    "base, query, fuel and number of requests, whatever cuts / disjunctions / negations ran), the isolation mechanism (a node's substitution set is never "
+                    "modified), the answer formatting of solve/solve_all and the machine's answer rule; completeness, order and multiplicity (the refinement engine = "
+                    "reference machine) are stated in Props/C01.lean, not proved, and decided by the machine comparison on every run",
                     ENGINE_ASSUME],
 }
 PROPS['C02'] = {
@@ -195,10 +197,11 @@ PROPS['C03'] = {
     'theorems': ['Suiron.C03.not_once', 'Suiron.C03.not_hides_bindings', 'Suiron.C03.not_iff', 'Suiron.C03.not_then_exhausted'],
     'oracles': ['C03'],
     'suites': {
-        'quick': engine_runs('C03', 1500, [['--not', '8', '--cut', '0'], ['--not', '6', '--cut', '2'], ['--not', '8', '--print', '3', '--cut', '0']], what='both'),
-        'thorough': engine_runs('C03', 20000, [['--not', '8', '--cut', '0']] * 6 + [['--not', '6', '--cut', '2']] * 4 + [['--not', '8', '--print', '3', '--cut', '0']] * 2, what='both'),
+        'quick': engine_runs('C03', 1500, [['--not', '8', '--cut', '0'], ['--not', '6', '--cut', '2'], ['--not', '8', '--print', '3', '--cut', '0'], ['--not', '8', '--cut', '4', '--cut-in-not']], what='both'),
+        'thorough': engine_runs('C03', 20000, [['--not', '8', '--cut', '0']] * 6 + [['--not', '6', '--cut', '2']] * 4 + [['--not', '8', '--print', '3', '--cut', '0']] * 2 + [['--not', '8', '--cut', '4', '--cut-in-not']] * 3, what='both'),
     },
-    'rule': E_RULE + " Runs here wrap calls, conjunctions, disjunctions, unifications and comparisons in not(...) (no cut inside).",
+    'rule': E_RULE + " Runs here wrap calls, conjunctions, disjunctions, unifications and comparisons in not(...); the `--cut-in-not` run also puts `!` inside the "
+            "negated goal (for those programs only implementation and engine model are compared: the reference machine does not define a cut under not).",
     'design_ref': '5.3',
     'assumptions': ["`G has no answer` is read on the engine model as: G's node, asked once, reports none; the equivalence with the reference search is "
                     "decided by the machine comparison", ENGINE_ASSUME],
@@ -210,13 +213,13 @@ PROPS['C04'] = {
                  'Suiron.C04.print_shows_bound_value'],
     'oracles': ['C04'],
     'suites': {
-        'quick': engine_runs('C04', 1500, [['--print', '8'], ['--print', '8', '--cut', '0', '--not', '0'], ['--print', '6', '--cut', '6']], what='output'),
+        'quick': engine_runs('C04', 1500, [['--print', '8'], ['--print', '8', '--cut', '0', '--not', '0'], ['--print', '6', '--cut', '6'], ['--print', '6', '--time', '4']], what='output'),
         'thorough': engine_runs('C04', 20000, [['--print', '8']] * 6 + [['--print', '8', '--cut', '0', '--not', '0']] * 4 + [['--print', '6', '--cut', '6']] * 4, what='output'),
     },
     'rule': E_RULE + " Runs here place print / print_list / nl goals among backtracking goals; stdout is captured per request.",
     'design_ref': '5.4',
     'assumptions': ["output order and multiplicity are decided by comparing the captured stdout per request with the reference machine's output; "
-                    "`time(...)` is never generated (its text is a duration)", ENGINE_ASSUME],
+                    "the duration written by `time(...)` is replaced by a placeholder on both sides", ENGINE_ASSUME],
 }
 PROPS['C05'] = {
     'exhaustive_in': {'quick': True, 'thorough': True},
@@ -224,10 +227,10 @@ PROPS['C05'] = {
     'theorems': ['Suiron.C05.none_exhausts', 'Suiron.C05.exhausted_stays', 'Suiron.C05.reasked', 'Suiron.C05.C05'],
     'oracles': ['C05'],
     'suites': {
-        'quick': engine_runs('C05', 1500, [[], ['--not', '6'], ['--cut', '6', '--print', '4']]),
-        'thorough': engine_runs('C05', 20000, [[]] * 6 + [['--not', '6']] * 4 + [['--cut', '6', '--print', '4']] * 4),
+        'quick': engine_runs('C05', 1500, [[], ['--not', '6'], ['--cut', '6', '--print', '4'], ['--time', '6', '--print', '3']]),
+        'thorough': engine_runs('C05', 20000, [[]] * 6 + [['--not', '6']] * 4 + [['--cut', '6', '--print', '4']] * 4 + [['--time', '6', '--print', '3']] * 3),
     },
-    'rule': E_RULE + " Every case is re-asked 1-3 times after the first `no more answers`.",
+    'rule': E_RULE + " Every case is re-asked 1-3 times after the first `no more answers`. The `--time` run wraps goals in time(...) (the duration it writes is replaced by a placeholder).",
     'design_ref': '5.5',
     'assumptions': ["theorems: for every node, knowledge base, global state and fuel; a request that runs out of fuel (the model's rendering of "
                     "non-termination) is the only alternative to `none` the statement allows",
@@ -567,11 +570,11 @@ LEVEL_TEXT = {
     'C17': 'Proved in Lean: count = number of visited cells (= length for literal lists); include/exclude keep, in order, the elements whose test unification '
            'under the unchanged set succeeds / fails and bind nothing; functor matches exactly or by prefix; join follows the spacing rule on the values of '
            'its terms. Tied to the code by the builtins correspondence suite and its oracles.',
-    'C01': 'PARTIAL proof + exhaustive-style differential check: the engine model (node tree with returned cut flag) and a reference choicepoint-stack '
-           'machine are both executable Lean definitions; implementation, model and machine are run on the same generated programs on every check and '
-           'must agree request by request (substitution sets with ids, counters, stdout) resp. answer by answer (up to variable renaming). Proved for all '
-           'inputs: node substitution sets are immutable (no leakage between alternatives), the answer formatting, the machine answer rule. The '
-           'refinement theorem engine = machine is stated, not yet proved.',
+    'C01': 'PARTIAL proof + exhaustive-style differential check. Proved in Lean for all knowledge bases, queries, fuel values and numbers of requests: SOUNDNESS - every '
+           'answer the engine returns, at any request, is an answer of SLD resolution in the declarative sense (some clause, renamed apart, whose head unifies with the '
+           'goal and whose body is answered in turn); node substitution sets are immutable (no leakage between alternatives); the answer formatting. Completeness, '
+           'order and multiplicity are decided by running implementation, engine model and a reference choicepoint-stack machine (both executable Lean definitions) on '
+           'the same generated programs on every check: they must agree request by request (substitution sets with ids, counters, stdout) resp. answer by answer.',
     'C02': 'Proved in Lean on the engine model for all nodes, knowledge bases, states and fuel: `!` marks its node and raises the cut flag; every node that '
            'passes the flag on is marked when it returns; a marked node answers none and changes nothing (no retry to the left of the cut, no answer '
            'beyond the one being derived); a call whose body cut and then failed tries no later clause; a call never reports a cut to its caller '
